@@ -251,7 +251,7 @@ func runC14() *RunResult {
 			pn[c.Func] = 1 << uint(rn(4))
 			o := &Op{Kind: opCustom, Path: p, Cfg: cfg, Panics: pn}
 			o.Do = func(t *Task, o *Op) {
-				_, o.Got = safeCall(shared.Fn, doc.Val)
+				_, o.Got = safeCall(shared.Fn, deepCopy(doc.Val))
 				o.GotLog = perFuncLog(t.rec.Calls)
 			}
 			w.tasks[ti].ops = append(w.tasks[ti].ops, o)
@@ -262,7 +262,9 @@ func runC14() *RunResult {
 		exp := modelFunctions(V, p.SingleValued, fl, f, cfg.Variant)
 		o := &Op{Kind: opCustom, Path: p, Cfg: cfg, Faults: f}
 		o.Do = func(t *Task, o *Op) {
-			res, out := safeCall(shared.Fn, doc.Val)
+			// every evaluation gets its own copy of the document: if the library damages the
+			// document (C04's subject) later evaluations must not inherit the damage
+			res, out := safeCall(shared.Fn, deepCopy(doc.Val))
 			o.Got, o.GotLog = out, perFuncLog(t.rec.Calls)
 			if t.rec.Bad != "" {
 				o.GotLog += "BAD:" + t.rec.Bad
@@ -529,7 +531,7 @@ func runC14Operand() *RunResult {
 		expLog := perFuncLog(calls)
 		o := &Op{Kind: opCustom, Path: p, Cfg: cfg, Faults: faults}
 		o.Do = func(t *Task, o *Op) {
-			_, out := safeCall(shared.Fn, doc.Val)
+			_, out := safeCall(shared.Fn, deepCopy(doc.Val))
 			o.Got, o.GotLog = out, perFuncLog(t.rec.Calls)
 			if simrt.Aborted() != 0 {
 				return
